@@ -97,7 +97,7 @@ def check_case(case):
 
 
 UNITS = [
-    Unit("delegation", check_case, strategy=gen_deleg.delegation_cases, quick=1500, thorough=60000,
+    Unit("delegation", check_case, essential_min=0.01, strategy=gen_deleg.delegation_cases, quick=1500, thorough=60000,
          essential=["other-role-satisfied", "role-only-in-untrusted", "observed=UnknownRoleError",
                     "observed=MetadataVerificationError", "observed=accept", "observed=SignatureError"],
          doc="verify_delegation verdict and error class == independent delegation rule, both directions"),
